@@ -16,6 +16,7 @@ import (
 	"reflect"
 	"sort"
 	"strings"
+	"time"
 
 	"github.com/sourcegraph/zoekt"
 	"github.com/sourcegraph/zoekt/gitindex"
@@ -1076,14 +1077,19 @@ func main() {
 			e.runDetail(detailOf(p), muts)
 		}
 	}
+	t0 := time.Now()
+	phase := func(name string) { fmt.Fprintf(os.Stderr, "phase %s done at %.1fs\n", name, time.Since(t0).Seconds()) }
+	defer phase("all")
 	// dynamic confirmation: every field of index.Options, as the current source declares them
 	for _, name := range optionFieldNames() {
 		e.runDyn(dynCase{Op: "dyn", Field: name}, muts)
 	}
+	phase("dyn")
 	// end to end through gitindex on a real git repository: every kind of change once
 	for _, ch := range gitChanges {
 		e.runGit(gitCase{Op: "git", Change: ch})
 	}
+	phase("git")
 	r := gen.NewRand(f.Seed)
 	// the repository's own test shards: format 16 and 17, older feature versions
 	if shards, _ := filepath.Glob(filepath.Join(os.Getenv("VERIF_REPO"), "testdata", "shards", "*.zoekt")); len(shards) > 0 {
@@ -1101,9 +1107,11 @@ func main() {
 			e.runTestdata(tdCase{Op: "testdata", Shard: sh, B: b})
 		}
 	}
+	phase("testdata")
 	for i := 0; i < f.N(15, 200); i++ {
 		e.runScenario(genScenario(r))
 	}
+	phase("scenarios")
 	for i := 0; i < f.N(20, 250); i++ {
 		a := genOpts(r)
 		b := cloneOpts(a)
